@@ -42,6 +42,14 @@ def run(payload):
     sm = corpus.samples(os.environ["ANNET_VERIF_REPO_ROOT"])
     k, n = payload["shard"]
     jobs = [(s["name"], s["hw"], s["old"], s["new"]) for s in sm]
+    # identical and merely reordered configurations: an empty diff does not imply an empty patch
+    # (logic functions such as aruba.ap_env emit commands from unchanged rows)
+    def reordered(t):
+        return type(t)((k, t[k]) for k in reversed(list(t)))
+    for s in sm:
+        jobs.append((f"{s['name']}.old~same", s["hw"], s["old"], s["old"]))
+        jobs.append((f"{s['name']}.new~same", s["hw"], s["new"], s["new"]))
+        jobs.append((f"{s['name']}.new~reversed", s["hw"], s["new"], reordered(s["new"])))
     rng = random.Random(payload["seed"])
     by_hw = {}
     for s in sm:
